@@ -397,6 +397,17 @@ func loadSecrets(dir, id string, node int, epoch int) ([]secscan.Secret, error) 
 }
 
 func partCluster(c *vlib.Check, scID string, replace bool, st *scanStats) {
+	var last string
+	for attempt := 0; attempt < 3; attempt++ {
+		if last = clusterOnce(c, scID, replace, st); last == "" {
+			return
+		}
+	}
+	c.EngineError("%s", last)
+}
+
+// clusterOnce returns "" when the scenario ran through (findings are reported inside), else why it did not.
+func clusterOnce(c *vlib.Check, scID string, replace bool, st *scanStats) string {
 	n := 3
 	if replace {
 		n = 4 // node 3 joins at the resharing, node 2 leaves
@@ -412,11 +423,11 @@ func partCluster(c *vlib.Check, scID string, replace bool, st *scanStats) {
 		}
 	}
 	if err != nil {
-		c.EngineError("c15-cluster %s: start: %v", scID, err)
-		return
+		return fmt.Sprintf("c15-cluster %s: start: %v", scID, err)
 	}
 	defer cl.Close()
-	fail := func(what string, err error) { c.EngineError("c15-cluster %s: %s: %v", scID, what, err) }
+	failed := ""
+	fail := func(what string, err error) { failed = fmt.Sprintf("c15-cluster %s: %s: %v", scID, what, err) }
 	all := []int{0, 1, 2}
 	var answers []hay
 	_ = all
@@ -444,22 +455,22 @@ func partCluster(c *vlib.Check, scID string, replace bool, st *scanStats) {
 	}
 	if err := cl.ProposeInitial(0, []int{0, 1, 2}, 2, 15*time.Second); err != nil {
 		fail("initial proposal", err)
-		return
+		return failed
 	}
 	for _, i := range []int{1, 2} {
 		if err := cl.Join(i, nil); err != nil {
 			fail("join", err)
-			return
+			return failed
 		}
 	}
 	grab("proposed")
 	if err := cl.Execute(0); err != nil {
 		fail("execute", err)
-		return
+		return failed
 	}
 	if err := cl.WaitComplete(1, all, 90*time.Second); err != nil {
 		fail("first DKG", err)
-		return
+		return failed
 	}
 	var secrets []secscan.Secret
 	for i := range cl.Nodes {
@@ -469,14 +480,14 @@ func partCluster(c *vlib.Check, scID string, replace bool, st *scanStats) {
 		}
 		if err != nil {
 			fail("reading the key material of epoch 1", err)
-			return
+			return failed
 		}
 		secrets = append(secrets, s...)
 	}
 	grab("epoch1")
 	if err := cl.WaitHead(0, 3, 90*time.Second); err != nil {
 		fail("beacons of epoch 1", err)
-		return
+		return failed
 	}
 	remaining, joining, leaving, acceptors := all, []int(nil), []int(nil), []int{1, 2}
 	if replace {
@@ -484,28 +495,28 @@ func partCluster(c *vlib.Check, scID string, replace bool, st *scanStats) {
 	}
 	if err := cl.ProposeReshare(0, remaining, joining, leaving, 2); err != nil {
 		fail("reshare proposal", err)
-		return
+		return failed
 	}
 	for _, i := range acceptors {
 		if err := cl.Accept(i); err != nil {
 			fail("accept", err)
-			return
+			return failed
 		}
 	}
 	if replace {
 		gf, err := os.ReadFile(cl.Dirs[0] + "/multibeacon/" + cl.ID + "/groups/drand_group.toml")
 		if err != nil {
 			fail("group file for the joiner", err)
-			return
+			return failed
 		}
 		if err := cl.Join(3, gf); err != nil {
 			fail("join (reshare)", err)
-			return
+			return failed
 		}
 	}
 	if err := cl.Execute(0); err != nil {
 		fail("execute (reshare)", err)
-		return
+		return failed
 	}
 	members2 := all
 	if replace {
@@ -513,13 +524,13 @@ func partCluster(c *vlib.Check, scID string, replace bool, st *scanStats) {
 	}
 	if err := cl.WaitComplete(2, members2, 90*time.Second); err != nil {
 		fail("resharing", err)
-		return
+		return failed
 	}
 	for _, i := range members2 {
 		s, err := loadSecrets(cl.Dirs[i], cl.ID, i, 2)
 		if err != nil {
 			fail("reading the key material of epoch 2", err)
-			return
+			return failed
 		}
 		secrets = append(secrets, s...)
 	}
@@ -527,7 +538,7 @@ func partCluster(c *vlib.Check, scID string, replace bool, st *scanStats) {
 	h, _ := cl.Head(0)
 	if err := cl.WaitHead(1, h+14, 120*time.Second); err != nil { // past the transition (10 rounds after completion)
 		fail("beacons across the transition", err)
-		return
+		return failed
 	}
 	grab("after-transition")
 	// public endpoints of every node
@@ -574,6 +585,7 @@ func partCluster(c *vlib.Check, scID string, replace bool, st *scanStats) {
 	}
 	c.Sub("c15-cluster/"+scID+"/"+shape, map[string]any{"daemons": n, "engine": "real daemons behind recording proxies: DKG, beacons, resharing, transition", "secrets": sc.Secrets, "patterns": sc.Patterns(),
 		"network_bytes": netBytes, "log_bytes": logBytes, "answers": len(answers)})
+	return ""
 }
 
 // ---------------------------------------------------------------- c15-badfiles
